@@ -20,7 +20,7 @@ def classify(block, idx):
 def run(run):
     quick = run.tier == "quick"
     out = run.out
-    k = dict(NA=3, NB=3, MT=20, F2N=4, MF2=40, MP2=700) if quick else dict(NA=3, NB=3, MT=2, F2N=4, MF2=20, MP2=120)
+    k = dict(NA=3, NB=3, MT=20, F2N=4, MF2=40, MP2=700, NBB=4, MTW=12) if quick else dict(NA=3, NB=3, MT=2, F2N=4, MF2=20, MP2=120, NBB=4, MTW=2)
     p = os.path.join(out, "MC.cfg")
     with open(p, "w") as f:
         f.write("SPECIFICATION Spec\nCHECK_DEADLOCK FALSE\nCONSTANTS\n  N = %d\nINVARIANT ShortcutOK\n" % (3 if quick else 4))
